@@ -70,17 +70,33 @@ def run_impl(dim, shape, dx, shift, kernel, real_t, pos, u, uvec, F, Fvec, E0, E
     dist = sup.copy()
     w = np.zeros((4,) * dim + (n,), dtype=real_t)
     cs.interpolation_weights_kernel(w, sup)
+    ins = {"interp_weights": w, "nearest_eul_grid_index_to_lag_grid": idx, "lag_positions": pos, "eul_grid_field": u, "eul_grid_field(vector)": uvec,
+           "lag_grid_field": F, "lag_grid_field(vector)": Fvec}
+    before = {k_: np.array(v_, copy=True) for k_, v_ in ins.items()}
+    modified = []
+
+    def frame(after_call):
+        for k_, v_ in ins.items():
+            if v_.tobytes() != before[k_].tobytes() and not any(m_[0] == k_ for m_ in modified):
+                modified.append((k_, after_call))
+
     li = np.zeros(n, dtype=real_t)
-    cs.eulerian_to_lagrangian_grid_interpolation_kernel(li, u, w, idx)
+    cs.eulerian_to_lagrangian_grid_interpolation_kernel(li, u, w, idx); frame("scalar interpolation")
     lv = np.zeros((dim, n), dtype=real_t)
-    cv.eulerian_to_lagrangian_grid_interpolation_kernel(lv, uvec, w, idx)
+    cv.eulerian_to_lagrangian_grid_interpolation_kernel(lv, uvec, w, idx); frame("vector interpolation")
     E = E0.copy()
-    cs.lagrangian_to_eulerian_grid_interpolation_kernel(E, F, w, idx)
+    cs.lagrangian_to_eulerian_grid_interpolation_kernel(E, F, w, idx); frame("scalar spreading")
     E1 = E.copy()
-    cs.lagrangian_to_eulerian_grid_interpolation_kernel(E, F, w, idx)
+    cs.lagrangian_to_eulerian_grid_interpolation_kernel(E, F, w, idx); frame("second scalar spreading")
     Ev = E0vec.copy()
-    cv.lagrangian_to_eulerian_grid_interpolation_kernel(Ev, Fvec, w, idx)
-    return {"idx": idx, "dist": dist, "w": w, "interp": li, "interp_vec": lv, "spread1": E1, "spread2": E, "spread_vec": Ev}
+    cv.lagrangian_to_eulerian_grid_interpolation_kernel(Ev, Fvec, w, idx); frame("vector spreading")
+    # interpolate once more AFTER the spreads with the same weights (adjointness is a statement about one set of weights)
+    li2 = np.zeros(n, dtype=real_t)
+    cs.eulerian_to_lagrangian_grid_interpolation_kernel(li2, u, w, idx)
+    if li2.tobytes() != li.tobytes() and not modified:
+        modified.append(("(interpolation result changed after spreading)", "scalar spreading"))
+    return {"idx": idx, "dist": dist, "w": before["interp_weights"], "interp": li, "interp_vec": lv, "spread1": E1, "spread2": E, "spread_vec": Ev,
+            "modified_inputs": modified}
 
 
 def dense_weights(dim, shape, idx, w):
@@ -172,6 +188,12 @@ def run(seed=0, tier="quick"):
     for dim, kernel, real_t, k in _configs(seed, tier):
         r, shape, dx, shift, n, pos, kinds, u, uvec, F, Fvec, E0, E0vec = _setup(seed, dim, kernel, real_t, k)
         im = run_impl(dim, shape, dx, shift, kernel, real_t, pos, u, uvec, F, Fvec, E0, E0vec)
+        if im["modified_inputs"]:
+            lab = {"dim": dim, "kernel": kernel, "dtype": real_t.__name__, "grid": list(shape), "markers": n}
+            return {"ok": False, "cases": len(reqs), "samples": [], "name": "Model/Interp vs numba communicators",
+                    "detail": f"{lab}: a communicator kernel modified its INPUT arrays: {im['modified_inputs']}",
+                    "failing_input": {"oracle": "communicator_modifies_input", **lab, "modified": [list(m_) for m_ in im["modified_inputs"]],
+                                      "what": "an input array (weights / indices / positions / fields) is not bit-identical after the call"}}
         reqs.append(model(dim, shape, dx, shift, kernel, pos, u, E0, F))
         impls.append(im)
         meta.append({"dim": dim, "kernel": kernel, "dtype": real_t.__name__, "grid": list(shape), "dx": float(dx), "shift": float(shift),
@@ -379,6 +401,11 @@ def oracle_c07(seed=0, tier="quick", aimed=None):
         vol = float(dx) ** dim
         info = {"dim": dim, "kernel": kernel, "dtype": real_t.__name__, "grid": list(shape), "dx": float(dx), "markers": n,
                 "kinds": sorted(set(kinds))}
+        if im["modified_inputs"] or im2["modified_inputs"]:
+            return {"ok": False, "cases": cases, "samples": samples, "failing_input": {
+                "oracle": "c07_communicator_modifies_input", "what": "interpolation / spreading changed one of its input arrays, so the weights "
+                "used by the next call are not the weights of the previous one (adjointness and accumulation are statements about ONE set of weights)",
+                "modified": [list(m_) for m_ in (im["modified_inputs"] or im2["modified_inputs"])], **info, "positions": pos.tolist()}}
         f64 = lambda a: np.asarray(a, dtype=np.float64)  # noqa: E731
         scale = float(np.abs(f64(F)).sum() * np.abs(f64(u)).max()) + 1e-30
         checks = []
